@@ -290,8 +290,15 @@ func init() {
 		}
 		return x.jsonDecodeInto(st, fr, c, data, c.args[1])
 	})
-	reg("encoding/json.Valid", "arbitrary", func(x *Exec, st *State, fr *Frame, c *callCtx) bool {
-		return x.finish(st, fr, c, x.symbolicResult(st, c))
+	reg("encoding/json.Valid", "an uninterpreted predicate of the bytes (json.valid)", func(x *Exec, st *State, fr *Frame, c *callCtx) bool {
+		b, ok := x.force(st, c.args[0]).(VBytes)
+		if !ok {
+			return x.finish(st, fr, c, x.symbolicResult(st, c))
+		}
+		f := x.sym.Func("json.valid", []Sort{SBytes}, SBool)
+		v := App(SBool, f, b.B)
+		st.assume(Implies(v, Gt(App(SInt, "bytes.len", b.B), IntLit(0)))) // valid JSON is not empty
+		return x.finish(st, fr, c, VScalar{v})
 	})
 
 	reg("github.com/resonatehq/resonate/internal/app/subsystems/aio/store.StoreErr", "StoreErr wraps an error with caller information: non-nil whenever its argument is non-nil",
